@@ -729,4 +729,69 @@ var Shapes = []func(b *B){
 			b.braces(func() { b.n("a") })
 		})
 	},
+	// 15: a variable in a directive argument at every directive location of an executable
+	// document (operation, field, inline fragment, fragment spread, fragment definition),
+	// the variable also used by a field argument
+	func(b *B) {
+		dir := func() {
+			b.p(hparse.KAt)
+			b.pick("d", "rep")
+			b.p(hparse.KParenL)
+			b.n("x")
+			b.p(hparse.KColon)
+			switch b.alt(3) {
+			case 0:
+				b.variable()
+			case 1:
+				b.lit(hparse.KInt, "1")
+			case 2:
+				b.p(hparse.KBracketL)
+				b.variable()
+				b.p(hparse.KBracketR)
+			}
+			b.p(hparse.KParenR)
+		}
+		site := b.altN("site", 5)
+		b.ns("query", "Q")
+		b.p(hparse.KParenL, hparse.KDollar)
+		b.n("v")
+		b.p(hparse.KColon)
+		b.pick("Int", "String")
+		b.p(hparse.KParenR)
+		if site == 0 {
+			dir()
+		}
+		b.braces(func() {
+			b.n("o")
+			b.p(hparse.KParenL)
+			b.n("x")
+			b.p(hparse.KColon)
+			b.variable()
+			b.p(hparse.KParenR)
+			b.braces(func() { b.n("a") })
+			switch site {
+			case 1:
+				b.n("a")
+				dir()
+			case 2:
+				b.p(hparse.KSpread)
+				dir()
+				b.braces(func() { b.n("s") })
+			case 3:
+				b.p(hparse.KSpread)
+				b.n("F")
+				dir()
+			case 4:
+				b.p(hparse.KSpread)
+				b.n("F")
+			}
+		})
+		if site >= 3 {
+			b.ns("fragment", "F", "on", "Query")
+			if site == 4 {
+				dir()
+			}
+			b.braces(func() { b.n("s") })
+		}
+	},
 }
